@@ -5,8 +5,29 @@ RULE = ("generated evolutions; for every case the real diff_schemas is re-run un
         "and must return the identical action list; non-trivial = plan with >=2 actions of >=2 kinds or >=2 tables, distinct by hash")
 
 
+def loader_part(chk, res, rows):
+    """the real load_migrations on directories whose enumeration order differs from version order"""
+    import json, os
+    import vflib
+    p = os.path.join(res["dir"], "load.jsonl")
+    lrows = [json.loads(l) for l in open(p)] if os.path.exists(p) else []
+    hist = [r for r in lrows if "ok" in r]
+    chk.cov["correspondences"]["K-load(load_migrations vs sort_plans)"] = {"cases": 2 * len(hist), "mismatches": res.get("load_bad")}
+    chk.cov["distribution"]["loader_histories"] = len(hist)
+    chk.cov["evaluations"] += 2 * len(hist)
+    bad = [r for r in hist if not r["ok"]]
+    for r in bad[:3]:
+        chk.violation(vflib.write_replay("C08", "oracle:loader-order", {"input": {"migration_plans": r["plans"]}, "loaded_versions": r["loaded"],
+                                                                     "note": "the same migration files stored under different file names / creation orders were not replayed in ascending version order"}))
+    if res.get("load_bad") and not bad:
+        chk.violation(vflib.write_replay("C08", "correspondence:K-load", {"mismatches": res.get("load_bad")}), True)
+    errs = [r for r in lrows if "error" in r]
+    if errs:
+        chk.notes.append("NOTE loader rejected %d stored histories (plan validation; C12's subject)" % len(errs))
+
+
 def run(tier, seed):
-    return m1run.m1_check("C08", tier, seed, subchecks=[3, 4], oracle_key="c08", known_ids=[], rule=RULE,
+    return m1run.m1_check("C08", tier, seed, subchecks=[3, 4], oracle_key="c08", known_ids=[], rule=RULE, extra=loader_part,
                           assumptions=["tie: K-apply(replay) and K-diff(plan_next) evaluated inside Coq on every case",
                                        "proved: sort_plans (the loader's sort_by_key) is independent of listing order for distinct versions; diff_actions is invariant under permutation of both table lists (distinct names)",
                                        "SQL-generation determinism (build_plan_queries) is covered through the SQL layer's correspondence (C02-C04 checks); process-level hash-seed variation is exercised by the exporter checks (C18)"])
